@@ -344,12 +344,12 @@ pub fn gen_seg32() -> Vec<History> {
     out
 }
 
-/// C14: construction over lengths 1..=40, 2^k-1, 2^k, 2^k+1 (k <= 40) at several offsets (negative,
+/// C14: construction over lengths 1..=40, 2^k-1, 2^k, 2^k+1 (k <= 60) at several offsets (negative,
 /// non-aligned, near the ends of i32 / i64), with single-point and edge inserts / queries at lo, hi
 /// and every bucket edge
 pub fn gen_layout(deep: bool) -> Vec<History> {
     let mut lens: Vec<i64> = (1..=40).collect();
-    for k in 5..=40u32 {
+    for k in 5..=60u32 {
         let p = 1i64 << k;
         lens.push(p - 1);
         lens.push(p);
